@@ -132,6 +132,83 @@ Proof.
   - unfold do_fxop in E. apply (WS_fin s (late_create (fl_fuel (fst s)) (now (snd s)) (fst s) d ups) s' IH); [apply RJ_late_create|exact E].
 Qed.
 
+(** * a sufficient condition on the scenario itself: no source fires during initialisation (first cycle of positive length).
+    Then initialisation moves no part, every device is still empty when it is stamped, and initialisation is a strict step too. *)
+Definition src_pos (x : dev) : Prop := d_kind x = KSource -> 0 < d_cycle x /\ 0 < d_cycle x + d_offset x.
+Definition Quiet0 (w : fw) : Prop := forall d, d_part (getd w d) = None /\ d_out (getd w d) = None /\ src_pos (getd w d).
+
+Lemma Quiet0_updd w d f :
+  (forall y, d_part (f y) = d_part y) -> (forall y, d_out (f y) = d_out y) -> (forall y, src_pos y -> src_pos (f y)) ->
+  Quiet0 w -> Quiet0 (updd w d f).
+Proof.
+  intros HP HO HS Q d'. rewrite getd_updd. destruct ((d' =? d) && amem d (f_devs w)); [|apply Q].
+  destruct (Q d) as [A [B C]]. rewrite HP, HO. auto.
+Qed.
+
+Lemma init_dev_quiet fuel nw w d : Quiet0 w -> Quiet0 (init_dev fuel nw w d) /\ RJ true nw w (init_dev fuel nw w d).
+Proof.
+  intro Q. unfold init_dev. set (x := getd w d). destruct (is_holder (d_kind x)); [|split; [exact Q|constructor]].
+  set (w1 := updd w d (fun y => dev_set_wait nw true true y)).
+  assert (SW : forall {X} (pr : dev -> X), (forall y v, pr (y <| d_wait_since := v |>) = pr y) -> forall y, pr (dev_set_wait nw true true y) = pr y).
+  { intros X pr H y. unfold dev_set_wait. cbn. destruct (d_wait_since y); [apply H|apply H]. }
+  assert (Q1 : Quiet0 w1).
+  { apply Quiet0_updd; [apply (SW _ d_part); reflexivity|apply (SW _ d_out); reflexivity| |exact Q].
+    intros y H K. unfold src_pos in H. rewrite (SW _ d_kind) in K by reflexivity. rewrite (SW _ d_cycle), (SW _ d_offset) by reflexivity. auto. }
+  assert (R1 : RJ true nw w w1).
+  { apply (RJ_dev true nw w d (fun y => d_part y = None /\ d_out y = None)); [|destruct (Q d) as [A [B _]]; auto].
+    intros y [PY OY]. unfold dev_set_wait, busy. cbn.
+    destruct (d_wait_since y); cbn; (split; [reflexivity|split; [intros _; reflexivity|intros _ _ _ _; cbn; auto]]). }
+  assert (K1 : d_kind (getd w1 d) = d_kind x) by (unfold w1; apply getd_updd_field; apply (SW _ d_kind); reflexivity).
+  destruct (d_kind x) eqn:K; try (split; [exact Q1|exact R1]).
+  - split.
+    + apply Quiet0_updd; [reflexivity|reflexivity| |exact Q1]. intros y H. exact H.
+    + eapply RJ_trans; [exact R1|]. apply (RJ_dev true nw w1 d (fun _ => True)); [|exact I]. intros y _.
+      split; [reflexivity|split; [intros _; reflexivity|intros _ H; exact H]].
+  - (* a source: its first cycle has positive length, only the timer is set *)
+    split; [|eapply RJ_trans; [exact R1|apply RJ_sched_finish_untracked; rewrite K1; reflexivity]].
+    unfold sched_finish. destruct (Q1 d) as [_ [_ SP]]. destruct (SP K1) as [C1 C2].
+    assert (NX : (Z.max 0 (d_cycle (getd w1 d) + d_offset (getd w1 d)) <=? 0) = false) by (apply Z.leb_gt; lia).
+    rewrite NX. intro d'. change (getd (emitf ?a ?c) d') with (getd a d').
+    apply Quiet0_updd; [reflexivity|reflexivity| |exact Q1]. intros y H KK. destruct (H KK) as [A B]. unfold t_reset_offset. cbn. lia.
+Qed.
+
+Lemma init_fold_strict fuel nw l : forall w, Quiet0 w -> RJ true nw w (fold_left (init_dev fuel nw) l w).
+Proof.
+  induction l as [|d l IH]; intros w Q; cbn [fold_left]; [apply RJ_refl|].
+  destruct (init_dev_quiet fuel nw w d Q) as [Q3 R3]. exact (RJ_trans true nw _ _ _ R3 (IH _ Q3)).
+Qed.
+
+Lemma init_world_strict fuel nw w : Quiet0 w -> RJ true nw w (init_world fuel nw w).
+Proof.
+  intro Q. unfold init_world. set (w1 := rm_call w (rm_initialize nw)).
+  assert (Q1 : Quiet0 w1) by (intro d; unfold w1; rewrite (getd_other_fields w _ d (proj1 (rm_call_devs w _))); apply Q).
+  apply (RJ_trans true nw w w1); [apply RJ_rm_call|]. apply init_fold_strict, Q1.
+Qed.
+
+Lemma pristine_Quiet0 w : wf_worldb w = true ->
+  (forall d x, aget d (f_devs w) = Some x -> src_pos x) -> Quiet0 w.
+Proof.
+  unfold wf_worldb. intros H SP. apply andb_true_iff in H. destruct H as [H _]. apply andb_true_iff in H. destruct H as [H _].
+  apply andb_true_iff in H. destruct H as [PR _]. rewrite forallb_forall in PR. intro d. unfold getd.
+  destruct (aget d (f_devs w)) as [x|] eqn:Hx; [|split; [reflexivity|split; [reflexivity|intro K; discriminate]]].
+  pose proof (SP d x Hx) as S. apply aget_In in Hx. specialize (PR _ Hx). cbn [snd] in PR.
+  unfold pristine in PR. repeat (apply andb_true_iff in PR; destruct PR as [PR ?]).
+  destruct (d_part x); [discriminate|]. destruct (d_out x); [discriminate|]. auto.
+Qed.
+
+Theorem reach_in_WS_src s :
+  (forall d x, aget d (f_devs (fq_world sc)) = Some x -> src_pos x) -> reach_in sc s -> WS s.
+Proof.
+  intros SP HR. apply reach_in_WS; [|exact HR]. intros s0 E.
+  assert (WF : wf_worldb (fq_world sc) = true).
+  { clear E s0. induction HR; auto. }
+  pose proof (pristine_Quiet0 _ WF SP) as Q.
+  unfold do_fxop in E.
+  apply (WS_fin (fq_world sc, init_env) (init_world (fl_fuel (fq_world sc)) (now (init_env (A:=fact))) (fq_world sc)) s0); [| |exact E].
+  - intros d T W. cbn [fst]. destruct (Q d) as [A [B _]]. auto.
+  - apply init_world_strict, Q.
+Qed.
+
 (** the condition on the initialised world, as a computation *)
 Definition waitb (x : dev) : bool :=
   negb (tracked (d_kind x)) || is_none (d_wait_since x) || (is_none (d_part x) && is_none (d_out x)).
@@ -154,5 +231,11 @@ Proof.
   intros I0 HR TK W. apply (reach_in_WS s); [|exact HR|exact TK|congruence].
   intros s0 E. rewrite E in I0. cbn [fst] in I0. destruct s0 as [w0 en0]. apply wait_okb_WS, I0.
 Qed.
+
+Theorem waiting_device_holds_nothing_src s d z :
+  (forall d x, aget d (f_devs (fq_world sc)) = Some x -> src_pos x) ->
+  reach_in sc s -> tracked (d_kind (getd (fst s) d)) = true -> d_wait_since (getd (fst s) d) = Some z ->
+  d_part (getd (fst s) d) = None /\ d_out (getd (fst s) d) = None.
+Proof. intros SP HR TK W. apply (reach_in_WS_src s SP HR); [exact TK|congruence]. Qed.
 
 End WaitReach.
